@@ -1,3 +1,5 @@
+use std::collections::HashMap;
+
 use rusty_common::{AtPos, CaseInsensitiveString, Position, Positioned};
 use rusty_linter::core::{LinterContext, ScopeName};
 use rusty_linter::names::Names;
@@ -267,6 +269,12 @@ pub struct InstructionGenerator {
     pub subprogram_info_repository: SubprogramInfoRepository,
     pub current_subprogram: ScopeName,
     pub linter_names: Names,
+    /// The FOR loops (identified by their position) whose body encloses
+    /// the statement that is currently being generated, outermost first.
+    pub for_path: Vec<Position>,
+    /// The FOR loops whose body encloses each label of the module or
+    /// subprogram that is currently being generated.
+    pub label_for_paths: HashMap<CaseInsensitiveString, Vec<Position>>,
 }
 
 impl InstructionGenerator {
@@ -277,6 +285,79 @@ impl InstructionGenerator {
             subprogram_info_repository,
             current_subprogram: ScopeName::Global,
             linter_names,
+            for_path: vec![],
+            label_for_paths: HashMap::new(),
+        }
+    }
+
+    /// Finds the labels of the given statements, together with the FOR
+    /// loops that enclose each one. A GOTO that leaves the body of a FOR
+    /// loop needs to know that, in order to drop the register frame of that body.
+    pub fn collect_label_for_paths(&mut self, statements: &Statements) {
+        self.label_for_paths.clear();
+        self.for_path.clear();
+        let mut path: Vec<Position> = vec![];
+        Self::do_collect_label_for_paths(statements, &mut path, &mut self.label_for_paths);
+    }
+
+    fn do_collect_label_for_paths(
+        statements: &Statements,
+        path: &mut Vec<Position>,
+        result: &mut HashMap<CaseInsensitiveString, Vec<Position>>,
+    ) {
+        for Positioned { element, pos } in statements {
+            match element {
+                Statement::Label(name) => {
+                    result.insert(name.clone(), path.clone());
+                }
+                Statement::ForLoop(f) => {
+                    path.push(*pos);
+                    Self::do_collect_label_for_paths(&f.statements, path, result);
+                    path.pop();
+                }
+                Statement::IfBlock(i) => {
+                    Self::do_collect_label_for_paths(&i.if_block.statements, path, result);
+                    for else_if_block in &i.else_if_blocks {
+                        Self::do_collect_label_for_paths(&else_if_block.statements, path, result);
+                    }
+                    if let Some(else_block) = &i.else_block {
+                        Self::do_collect_label_for_paths(else_block, path, result);
+                    }
+                }
+                Statement::SelectCase(s) => {
+                    for case_block in &s.case_blocks {
+                        let (_, statements) = case_block.into();
+                        Self::do_collect_label_for_paths(statements, path, result);
+                    }
+                    if let Some(else_block) = &s.else_block {
+                        Self::do_collect_label_for_paths(else_block, path, result);
+                    }
+                }
+                Statement::While(w) => {
+                    Self::do_collect_label_for_paths(&w.statements, path, result);
+                }
+                Statement::DoLoop(d) => {
+                    Self::do_collect_label_for_paths(&d.statements, path, result);
+                }
+                _ => {}
+            }
+        }
+    }
+
+    /// The number of FOR loop bodies that a GOTO to the given label leaves.
+    pub fn for_bodies_left_by_goto(&self, label: &CaseInsensitiveString) -> usize {
+        match self.label_for_paths.get(label) {
+            Some(label_path) => {
+                let common = self
+                    .for_path
+                    .iter()
+                    .zip(label_path.iter())
+                    .take_while(|(a, b)| a == b)
+                    .count();
+                self.for_path.len() - common
+            }
+            // the label is not in this module or subprogram
+            None => 0,
         }
     }
 
@@ -345,6 +426,7 @@ impl InstructionGenerator {
     }
 
     fn visit_global_statements(&mut self, statements: Statements) {
+        self.collect_label_for_paths(&statements);
         self.visit(statements);
 
         // add HALT instruction at end of program to separate from the functions and subs
@@ -416,6 +498,7 @@ impl InstructionGenerator {
     }
 
     fn subprogram_body(&mut self, block: Statements, pos: Position) {
+        self.collect_label_for_paths(&block);
         self.visit(block);
         // to be able to RESUME NEXT if an error occurs on the last statement
         self.mark_statement_address();
